@@ -140,6 +140,8 @@ let rec parse_item (ts : string list) : item * string list =
      | "bsi" -> let (cs, r) = hexes rest [] in (IBytesI cs, r)
      | "tsi" -> let (cs, r) = hexes rest [] in (ITextI cs, r)
      | "arr" -> let (xs, r) = items rest [] in (IArray (false, xs), r)
+     | "arrd" -> (match rest with _ :: r0 -> let (xs, r) = items r0 [] in (IArray (false, xs), r) | _ -> raise (Parse "arrd"))
+     | "mapd" -> (match rest with _ :: r0 -> let (xs, r) = items r0 [] in (IMap (false, pairs xs), r) | _ -> raise (Parse "mapd"))
      | "arri" -> let (xs, r) = items rest [] in (IArray (true, xs), r)
      | "map" -> let (xs, r) = items rest [] in (IMap (false, pairs xs), r)
      | "mapi" -> let (xs, r) = items rest [] in (IMap (true, pairs xs), r)
